@@ -11,7 +11,7 @@ GENS = ['units', 'consts']
 TARGETS = ['BC.Props.C02']
 PROP_FILES = ['BC/Props/C02.lean', 'BC/Lemmas/Loop.lean', 'BC/Lemmas/C02.lean']
 THEOREMS = ['C02_returned_meets_accuracy', 'C02_error_otherwise', 'C02_converges_partial', 'C02_failed_zero_leaves_weapon', 'C02_zero_angle_def',
-            'C02_hits_sight_line']
+            'C02_hits_sight_line', 'C02_starts_on_sight_line', 'C02_independent_of_stored_zero']
 STATEMENTS = {
     'C02_returned_meets_accuracy': 'whenever the zero finder returns an elevation e, the sampled point of the run AT e is within the zero-finding accuracy of the sight line',
     'C02_error_otherwise': 'otherwise it raises: an error propagated unchanged from a trajectory computation, or ZeroFindingError with error > accuracy and iterations <= cap; never an angle that misses',
@@ -20,6 +20,9 @@ STATEMENTS = {
     'C02_failed_zero_leaves_weapon': 'set_weapon_zero stores total - look on success and keeps the OLD value when zeroing raised',
     'C02_hits_sight_line': 'zeroAngle = ok e -> the run with e to the aim distance (step = that distance, flags RANGE) has a second row, the trajectory interpolated AT the aim '
                            'distance, with |target_drop| <= accuracy * |cos(look)| (x12 raw inches): level, uphill, downhill, any wind, any environment',
+    'C02_starts_on_sight_line': 'the search the code runs starts at the look angle (the theorems above hold for any start)',
+    'C02_independent_of_stored_zero': 'for an un-canted shot the outcome of zeroing (angle, or error with payload) does not depend on the zero elevation stored before nor on '
+                                      'the hold-over: shots differing in nothing else are zeroed alike',
     'C02_zero_angle_def': 'zero_angle aims at the point on the sight line at the look-distance: horizontal cos(look) d, and evaluates runs to that distance with no flags',
 }
 TRUSTED = [
@@ -38,6 +41,48 @@ def correspondence(chk, drv):
     pbc = import_repo()
     n = 25 if chk.tier == 'quick' else 2000
     trajcorr.corr_zero(chk, drv, pbc, n)
+
+
+def classify_zero_failure(pbc, calc, cfg, shot, D, X, probe_rows, err):
+    """why did zeroing a target that the sight-line launch reaches fail?
+    out-of-reach               - no elevation (scan to +75 deg above the sight line) puts the trajectory on or above the aim point within
+                                 the calculator's limits: there is no zero, raising is right (the property's premise is only sufficient
+                                 for reachability when the projectile is far from its maximum range);
+    near-max-range             - a zero exists, the projectile has lost more than 65 % of its speed at the target (the last few per cent of
+                                 its range), and either ZeroFindingError while the same call succeeds with cMaxIterations=400, or RangeError
+                                 from an iterate that falls short: the fixed-point step assumes d(height)/d(elevation) = distance/cos^2, far
+                                 too large at the end of the flight of a strongly decelerating projectile (KNOWN FINDING);
+    other                      - anything else"""
+    U = pbc.Unit
+    look = shot.look_angle >> U.Radian
+    if True:
+        reachable = False
+        for k in range(0, 76, 3):
+            s2 = copy.copy(shot)
+            s2.weapon = copy.copy(shot.weapon)
+            s2.weapon.zero_elevation = U.Radian(0)
+            s2.relative_angle = U.Degree(float(k))
+            try:
+                rows = calc.fire(s2, U.Foot(X), U.Foot(X)).trajectory
+            except Exception:  # noqa
+                continue
+            if len(rows) >= 2 and (rows[1].target_drop >> U.Foot) >= 0:
+                reachable = True
+                break
+        if not reachable:
+            return 'out-of-reach'
+    v_ratio = (probe_rows[-1].velocity >> U.FPS) / max(shot.ammo.mv >> U.FPS, 1e-9)
+    if v_ratio < 0.35:
+        if isinstance(err, pbc.RangeError):
+            return 'near-max-range'      # a zero exists (scan above), an iterate beyond the maximum-range elevation falls short
+        s3 = copy.copy(shot)
+        s3.weapon = copy.copy(shot.weapon)
+        try:
+            pbc.Calculator(_config={**cfg, 'cMaxIterations': 400}).set_weapon_zero(s3, U.Foot(D))
+            return 'near-max-range'
+        except Exception:  # noqa
+            pass
+    return 'other'
 
 
 def search(chk, broken):
@@ -74,7 +119,7 @@ def search(chk, broken):
         probe.weapon.zero_elevation = U.Radian(0)
         probe.relative_angle = U.Radian(0)
         try:
-            calc.fire(probe, U.Foot(X), U.Foot(X))
+            probe_rows = calc.fire(probe, U.Foot(X), U.Foot(X)).trajectory
         except Exception:  # noqa
             continue
         evals += 1
@@ -84,6 +129,17 @@ def search(chk, broken):
             steep = 'steep' if abs(math.degrees(look)) >= 30 else 'shallow'
             if shot.weapon.zero_elevation.raw_value != old_zero:
                 chk.failures.append(Failure('failed-zero-changed-weapon', 'a failed zeroing changed weapon.zero_elevation', desc))
+            kind = classify_zero_failure(pbc, calc, cfg, shot, D, X, probe_rows, e)
+            chk.stats.setdefault('zero_failures', {}).setdefault(kind, 0)
+            chk.stats['zero_failures'][kind] += 1
+            if kind == 'out-of-reach':
+                continue          # no elevation puts the trajectory on or above the aim point within the limits: raising is the right answer
+            if kind == 'near-max-range':
+                chk.failures.append(Failure('zero-fails:near-max-range',
+                                            f'zeroing at {D:.0f} ft (look {math.degrees(look):.1f} deg, BC {shot.ammo.dm.BC:.3f}, {shot.ammo.mv >> U.FPS:.0f} fps) raised '
+                                            f'{type(e).__name__} ({str(e)[:70]}) within the last few per cent of the maximum range although a zero exists',
+                                            {**desc, 'error': type(e).__name__}))
+                continue
             chk.failures.append(Failure(f'zero-fails:{steep}-look',
                                         f'zeroing at {D:.0f} ft with look angle {math.degrees(look):.1f} deg raised {type(e).__name__} ({str(e)[:60]}) although the target is reachable',
                                         {**desc, 'error': type(e).__name__,
@@ -111,4 +167,23 @@ def search(chk, broken):
                                          'python': 'from py_ballisticcalc import *; c=Calculator(); s=Shot(Weapon(2), Ammo(DragModel(0.3, TableG7), Unit.FPS(2700)), look_angle=Unit.Degree(20)); '
                                                    'c.set_weapon_zero(s, Unit.Yard(300)); import math; '
                                                    'c.fire(s, Unit.Foot(900*math.cos(math.radians(20))), Unit.Foot(900*math.cos(math.radians(20)))).trajectory[1].target_drop >> Unit.Foot'}))
+    # known open finding (known_findings.json): the fixed witness, so that the finding is reported on every run while it stays open
+    calc = pbc.Calculator()
+    shot = pbc.Shot(pbc.Weapon(U.Inch(2), 0), pbc.Ammo(pbc.DragModel(0.05, pbc.TableG1), U.FPS(1600)), U.Degree(6.5), atmo=pbc.Atmo.icao(U.Foot(0)))
+    D = 2500.0
+    X = D * math.cos(math.radians(6.5))
+    evals += 1
+    try:
+        probe_rows = calc.fire(shot, U.Foot(X), U.Foot(X)).trajectory
+        try:
+            calc.set_weapon_zero(shot, U.Foot(D))
+        except (pbc.ZeroFindingError, pbc.RangeError) as e:
+            kind = classify_zero_failure(pbc, calc, {}, shot, D, X, probe_rows, e)
+            key = 'zero-fails:near-max-range' if kind == 'near-max-range' else 'zero-fails:witness:' + kind
+            chk.failures.append(Failure(key, f'zeroing DragModel(0.05, TableG1) at 1600 fps, standard atmosphere, look 6.5 deg at 2500 ft (98 % of its maximum range) raised {type(e).__name__} '
+                                             f'({str(e)[:70]}); the sight-line launch reaches the distance and the call succeeds with cMaxIterations=400',
+                                        {'op': 'zero', 'python': 'from py_ballisticcalc import *; Calculator().set_weapon_zero(Shot(Weapon(Unit.Inch(2), 0), '
+                                                                 'Ammo(DragModel(0.05, TableG1), Unit.FPS(1600)), Unit.Degree(6.5)), Unit.Foot(2500))'}))
+    except pbc.RangeError:
+        pass
     chk.search_evals += evals
